@@ -134,13 +134,52 @@ func caseHobGUID(q *x) {
 		data[n-1] = 0xFF // last payload byte non-zero so that padding is distinguishable
 	}
 	orig := append([]byte{}, data...)
-	// len == cap, so that CreateEFIHOBGUID's append cannot write into the caller's spare capacity
-	data = data[:n:n]
-	witness := map[string]any{"guid": hx(g[:]), "data_len": n}
+	// (a) from a tight copy (len == cap)
+	tightIn := make([]byte, n)
+	copy(tightIn, orig)
+	tight, tightOK := hobGUIDProbe(q, g, orig, tightIn[:n:n], "tight copy")
+	// (b) from the head of a larger buffer whose spare capacity is dirty: every rule again, the same
+	// bytes as (a), and the caller's spare bytes left alone
+	var recs []dirtyRec
+	d := dirty(orig, &recs)
+	got, gotOK := hobGUIDProbe(q, g, orig, d, "head of a buffer with 0xA5-filled spare capacity")
+	if tightOK != gotOK || !bytes.Equal(tight, got) {
+		q.viol(entryW, "encoding-depends-on-spare-capacity", map[string]any{"guid": hx(g[:]), "data": hx(orig), "encoding_from_tight_copy": hx(tight), "encoding_from_buffer_with_dirty_spare_capacity": hx(got)},
+			"GUID HOB for the same %d data bytes: %s from a tight copy, %s when the slice has 0xA5-filled spare capacity behind it", n, hx(tight), hx(got))
+	} else if tightOK {
+		seen("encoding-independent-of-spare-capacity")
+		c.Cell("HOB GUID extension|payload with dirty spare capacity (len%%8=%d)|same encoding", n%8)
+	}
+	if ok, _ := spareIntact(recs); !ok {
+		spare := d[n:cap(d)]
+		pad := (n+7)&^7 - n
+		if !judgeHobPadInCallersBuffer && pad <= len(spare) && allEq(spare[:pad], 0) && allEq(spare[pad:], canary) {
+			c.Count("unjudged/CreateEFIHOBGUID wrote its zero padding into the caller's spare capacity", 1)
+			c.Note("CreateEFIHOBGUID appends its 1..7 zero pad bytes in place when the payload slice has spare capacity, i.e. it zeroes bytes behind len(data) in the caller's buffer (the encoding itself is right); counted, not judged")
+		} else {
+			q.viol(entryC, "wrote-into-callers-spare-capacity", map[string]any{"data_len": n, "spare_after": hx(spare)},
+				"CreateEFIHOBGUID / WriteTo changed bytes behind the end of the %d-byte payload in the caller's buffer: %s", n, hx(spare))
+		}
+	} else {
+		seen("callers-spare-capacity-untouched")
+	}
+}
+
+// judgeHobPadInCallersBuffer: the repository's CreateEFIHOBGUID pads with append(), which writes
+// the zero pad into the caller's spare capacity. The property speaks about encodings, not about the
+// caller's memory, so this one behaviour is counted and noted; anything else written there is judged.
+const judgeHobPadInCallersBuffer = false
+
+// hobGUIDProbe runs Create + WriteTo on one input slice and judges the result; it returns the encoding.
+func hobGUIDProbe(q *x, g abiref.GUID, orig, data []byte, how string) ([]byte, bool) {
+	c := q.c
+	const entryC, entryW = "abi.CreateEFIHOBGUID", "abi.EFIHOBGUID.WriteTo"
+	n := len(orig)
+	witness := map[string]any{"guid": hx(g[:]), "data_len": n, "data": hx(orig), "input_slice": how}
 	var h abi.EFIHOBGUID
 	var err error
 	if !q.must(entryC, func() { h, err = abi.CreateEFIHOBGUID(uuid.UUID(g), data) }) {
-		return
+		return nil, false
 	}
 	padded := (n + 7) &^ 7
 	fits := hobref.GUIDHobSize+padded <= hobref.MaxHobLength
@@ -151,13 +190,13 @@ func caseHobGUID(q *x) {
 			seen("out-of-range-refused")
 			c.Cell("HOB GUID extension|data too long for a 16-bit HobLength|refused by Create")
 		}
-		return
+		return nil, false
 	}
 	var buf bytes.Buffer
 	var wn int64
 	var werr error
 	if !q.must(entryW, func() { wn, werr = h.WriteTo(&buf) }) {
-		return
+		return nil, false
 	}
 	if !fits {
 		// Create let it through: the encoder as a whole must still not emit it.
@@ -169,16 +208,16 @@ func caseHobGUID(q *x) {
 			c.Note("CreateEFIHOBGUID accepts %d..%d data bytes although 24+len exceeds the 16-bit HobLength (the header then says %d); WriteTo refuses such a HOB, so nothing malformed is emitted", hobref.MaxGUIDHobData+1, abi.MaxGUIDHOBDataSize, h.Header.HobLength)
 			c.Cell("HOB GUID extension|data too long for a 16-bit HobLength|passed by Create, refused by WriteTo")
 		}
-		return
+		return nil, false
 	}
 	if werr != nil {
 		q.viol(entryW, "in-range-value-refused", witness, "EFIHOBGUID.WriteTo refuses the HOB CreateEFIHOBGUID built for %d data bytes: %v", n, werr)
-		return
+		return nil, false
 	}
 	b := buf.Bytes()
 	if len(b) != hobref.GUIDHobSize+padded {
 		q.viol(entryW, "encoding-length-differs-from-abi", witness, "GUID HOB for %d data bytes is %d bytes, want 24+%d (8-byte aligned)", n, len(b), padded)
-		return
+		return nil, false
 	}
 	if wn != int64(len(b)) {
 		q.viol(entryW, "reported-length-differs-from-written", witness, "WriteTo returned %d but wrote %d bytes", wn, len(b))
@@ -221,4 +260,5 @@ func caseHobGUID(q *x) {
 		seen("out-of-range-refused")
 		c.Cell("HOB GUID extension|HobLength != 24+len(data)|refused")
 	}
+	return b, true
 }
